@@ -288,7 +288,7 @@ Lemma step_inv (st : spill) (W : list B) (e : event) :
   forall k, firstn (nread st' k) (W ++ ev_written e o) = firstn (nread st k) W ++ ev_delivered k e o.
 Proof.
   intros (Hvis & Hsnd & HF).
-  destruct e as [b total during|during| | |re]; cbn [Model_Spill.step].
+  destruct e as [b total awaited during|awaited during| | |re]; cbn [Model_Spill.step].
   - (* write *)
     destruct (sp_alive st) eqn:Ea; cbn [negb].
     2:{ cbn [ev_written ev_delivered]. rewrite !app_nil_r. split; [repeat split; assumption | intro k; rewrite !app_nil_r; reflexivity]. }
@@ -300,31 +300,54 @@ Proof.
       destruct (limit <? total)%N.
       * (* first spill *)
         unfold set_state, set_file; cbn [sp_limit sp_state sp_status sp_file sp_alive sp_readers].
-        set (st1 := {| sp_limit := limit; sp_state := SSpilling (S (length W)); sp_status := status_of (SBuffering W);
-                       sp_file := Some (W ++ [b]); sp_alive := true; sp_readers := readers |}).
-        assert (Hv1 : vis_ok st1 W) by (right; reflexivity).
-        pose proof (rsteps_inv W during st1 Hv1 HF) as H2. destruct (rsteps st1 during) as [st2 os].
-        destruct H2 as ((Hl & Hs & Hst & Hfl & Hal) & HF2 & Hd2).
-        cbn [sp_limit sp_state sp_status sp_file sp_alive st1] in Hl, Hs, Hst, Hfl, Hal, HF2.
-        cbn [ev_written ev_delivered].
-        split.
-        -- split; [|split].
-           ++ right. cbn [publish sp_status sp_file]. rewrite <- Hs, <- Hfl. cbn [status_of ws_loc ws_finished].
+        destruct awaited.
+        { set (st1 := {| sp_limit := limit; sp_state := SSpilling (S (length W)); sp_status := status_of (SBuffering W);
+                         sp_file := Some (W ++ [b]); sp_alive := true; sp_readers := readers |}).
+          assert (Hv1 : vis_ok st1 W) by (right; reflexivity).
+          pose proof (rsteps_inv W during st1 Hv1 HF) as H2. destruct (rsteps st1 during) as [st2 os].
+          destruct H2 as ((Hl & Hs & Hst & Hfl & Hal) & HF2 & Hd2).
+          cbn [sp_limit sp_state sp_status sp_file sp_alive st1] in Hl, Hs, Hst, Hfl, Hal, HF2.
+          cbn [ev_written ev_delivered].
+          split.
+          - split; [|split].
+            + right. cbn [publish sp_status sp_file]. rewrite <- Hs, <- Hfl. cbn [status_of ws_loc ws_finished].
               split; [rewrite app_length; cbn; lia|]. exists (W ++ [b]). split; [reflexivity|].
               split; [|discriminate]. apply firstn_all2. rewrite app_length. cbn. lia.
-           ++ unfold sender_ok. cbn [publish sp_state sp_file sp_status]. rewrite <- Hs, <- Hfl.
+            + unfold sender_ok. cbn [publish sp_state sp_file sp_status]. rewrite <- Hs, <- Hfl.
               split; [rewrite app_length; cbn; lia|]. split; [reflexivity|]. f_equal.
-           ++ cbn [publish sp_readers sp_status]. eapply Forall_reader_mono; [|exact HF2].
+            + cbn [publish sp_readers sp_status]. eapply Forall_reader_mono; [|exact HF2].
               intro Hx. exfalso. exact (not_sp_or_err_buffering _ Hx).
-        -- intro k. rewrite (nread_readers (publish st2) st2 k eq_refl).
-           rewrite firstn_app_short by (eapply nread_le; exact HF2). rewrite Hd2. reflexivity.
+          - intro k. rewrite (nread_readers (publish st2) st2 k eq_refl).
+            rewrite firstn_app_short by (eapply nread_le; exact HF2). rewrite Hd2. reflexivity. }
+        { unfold publish; cbn [sp_limit sp_state sp_status sp_file sp_alive sp_readers].
+          set (st1 := {| sp_limit := limit; sp_state := SSpilling (S (length W)); sp_status := status_of (SSpilling (S (length W)));
+                         sp_file := Some (W ++ [b]); sp_alive := true; sp_readers := readers |}).
+          assert (Hv1 : vis_ok st1 (W ++ [b])).
+          { right. unfold st1; cbn [sp_status sp_file status_of ws_loc ws_finished]. split; [rewrite app_length; cbn; lia|]. exists (W ++ [b]). split; [reflexivity|].
+            split; [|discriminate]. apply firstn_all2. rewrite app_length. cbn. lia. }
+          assert (HF1 : Forall (reader_ok (sp_status st1) (W ++ [b])) (sp_readers st1)).
+          { unfold st1; cbn [sp_status sp_readers]. eapply Forall_reader_mono; [|exact HF].
+            intro Hx. exfalso. exact (not_sp_or_err_buffering _ Hx). }
+          pose proof (rsteps_inv (W ++ [b]) during st1 Hv1 HF1) as H2. destruct (rsteps st1 during) as [st2 os].
+          destruct H2 as ((Hl & Hs & Hst & Hfl & Hal) & HF2 & Hd2).
+          cbn [sp_limit sp_state sp_status sp_file sp_alive st1] in Hl, Hs, Hst, Hfl, Hal, HF2.
+          cbn [ev_written ev_delivered].
+          split.
+          - split; [|split].
+            + eapply vis_ok_core; [|exact Hv1]. repeat split; assumption.
+            + unfold sender_ok. rewrite <- Hs, <- Hfl, <- Hst.
+              split; [rewrite app_length; cbn; lia|]. split; reflexivity.
+            + rewrite <- Hst. exact HF2.
+          - intro k. rewrite Hd2. f_equal.
+            rewrite (nread_readers st1 {| sp_limit := limit; sp_state := SBuffering W; sp_status := status_of (SBuffering W); sp_file := None; sp_alive := true; sp_readers := readers |} k eq_refl).
+            apply firstn_app_short. eapply nread_le. exact HF. }
       * (* stays in memory *)
         unfold set_state, publish; cbn [sp_limit sp_state sp_status sp_file sp_alive sp_readers].
         set (st1 := {| sp_limit := limit; sp_state := SBuffering (W ++ [b]); sp_status := status_of (SBuffering (W ++ [b]));
                        sp_file := None; sp_alive := true; sp_readers := readers |}).
         assert (Hv1 : vis_ok st1 (W ++ [b])) by (right; reflexivity).
         assert (HF1 : Forall (reader_ok (sp_status st1) (W ++ [b])) (sp_readers st1)).
-        { cbn [st1 sp_status sp_readers]. eapply Forall_reader_mono; [|exact HF].
+        { unfold st1; cbn [sp_status sp_readers]. eapply Forall_reader_mono; [|exact HF].
           intro Hx. exfalso. exact (not_sp_or_err_buffering _ Hx). }
         pose proof (rsteps_inv (W ++ [b]) during st1 Hv1 HF1) as H2.
         destruct (rsteps st1 during) as [st2 os].
@@ -336,48 +359,72 @@ Proof.
            ++ right. rewrite <- Hst. reflexivity.
            ++ unfold sender_ok. rewrite <- Hs, <- Hfl, <- Hst. repeat split.
            ++ rewrite <- Hst. exact HF2.
-        -- intro k. rewrite Hd2. f_equal. change (nread st1 k) with (nread {| sp_limit := limit; sp_state := SBuffering W; sp_status := status_of (SBuffering W); sp_file := None; sp_alive := true; sp_readers := readers |} k).
+        -- intro k. rewrite Hd2. f_equal.
+           rewrite (nread_readers st1 {| sp_limit := limit; sp_state := SBuffering W; sp_status := status_of (SBuffering W); sp_file := None; sp_alive := true; sp_readers := readers |} k eq_refl).
            apply firstn_app_short. eapply nread_le. exact HF.
     + (* already spilling *)
       destruct Hsnd as (-> & -> & ->).
       unfold set_state, set_file; cbn [sp_limit sp_state sp_status sp_file sp_alive sp_readers].
-      set (st1 := {| sp_limit := limit; sp_state := SSpilling (S (length W)); sp_status := status_of (SSpilling (length W));
-                     sp_file := Some (W ++ [b]); sp_alive := true; sp_readers := readers |}).
-      assert (Hv1 : vis_ok st1 W).
-      { right. cbn. split; [reflexivity|]. exists (W ++ [b]). split; [reflexivity|]. split; [|discriminate].
-        rewrite firstn_app_short by lia. apply firstn_all. }
-      pose proof (rsteps_inv W during st1 Hv1 HF) as H2. destruct (rsteps st1 during) as [st2 os].
-      destruct H2 as ((Hl & Hs & Hst & Hfl & Hal) & HF2 & Hd2).
-      cbn [sp_limit sp_state sp_status sp_file sp_alive st1] in Hl, Hs, Hst, Hfl, Hal, HF2.
-      cbn [ev_written ev_delivered].
-      split.
-      * split; [|split].
-        -- right. cbn [publish sp_status sp_file]. rewrite <- Hs, <- Hfl. cbn [status_of ws_loc ws_finished].
-           split; [rewrite app_length; cbn; lia|]. exists (W ++ [b]). split; [reflexivity|].
-           split; [|discriminate]. apply firstn_all2. rewrite app_length. cbn. lia.
-        -- unfold sender_ok. cbn [publish sp_state sp_file sp_status]. rewrite <- Hs, <- Hfl.
-           split; [rewrite app_length; cbn; lia|]. split; [reflexivity|]. f_equal.
-        -- cbn [publish sp_readers sp_status]. rewrite <- Hs. eapply Forall_reader_mono; [|exact HF2].
-           intros _. right. eexists. reflexivity.
-      * intro k. rewrite (nread_readers (publish st2) st2 k eq_refl).
-        rewrite firstn_app_short by (eapply nread_le; exact HF2). rewrite Hd2. reflexivity.
+      destruct awaited.
+      { set (st1 := {| sp_limit := limit; sp_state := SSpilling (S (length W)); sp_status := status_of (SSpilling (length W));
+                       sp_file := Some (W ++ [b]); sp_alive := true; sp_readers := readers |}).
+        assert (Hv1 : vis_ok st1 W).
+        { right. cbn. split; [reflexivity|]. exists (W ++ [b]). split; [reflexivity|]. split; [|discriminate].
+          rewrite firstn_app_short by lia. apply firstn_all. }
+        pose proof (rsteps_inv W during st1 Hv1 HF) as H2. destruct (rsteps st1 during) as [st2 os].
+        destruct H2 as ((Hl & Hs & Hst & Hfl & Hal) & HF2 & Hd2).
+        cbn [sp_limit sp_state sp_status sp_file sp_alive st1] in Hl, Hs, Hst, Hfl, Hal, HF2.
+        cbn [ev_written ev_delivered].
+        split.
+        - split; [|split].
+          + right. cbn [publish sp_status sp_file]. rewrite <- Hs, <- Hfl. cbn [status_of ws_loc ws_finished].
+            split; [rewrite app_length; cbn; lia|]. exists (W ++ [b]). split; [reflexivity|].
+            split; [|discriminate]. apply firstn_all2. rewrite app_length. cbn. lia.
+          + unfold sender_ok. cbn [publish sp_state sp_file sp_status]. rewrite <- Hs, <- Hfl.
+            split; [rewrite app_length; cbn; lia|]. split; [reflexivity|]. f_equal.
+          + cbn [publish sp_readers sp_status]. rewrite <- Hs. eapply Forall_reader_mono; [|exact HF2].
+            intros _. right. eexists. reflexivity.
+        - intro k. rewrite (nread_readers (publish st2) st2 k eq_refl).
+          rewrite firstn_app_short by (eapply nread_le; exact HF2). rewrite Hd2. reflexivity. }
+      { unfold publish; cbn [sp_limit sp_state sp_status sp_file sp_alive sp_readers].
+        set (st1 := {| sp_limit := limit; sp_state := SSpilling (S (length W)); sp_status := status_of (SSpilling (S (length W)));
+                       sp_file := Some (W ++ [b]); sp_alive := true; sp_readers := readers |}).
+        assert (Hv1 : vis_ok st1 (W ++ [b])).
+        { right. unfold st1; cbn [sp_status sp_file status_of ws_loc ws_finished]. split; [rewrite app_length; cbn; lia|]. exists (W ++ [b]). split; [reflexivity|].
+          split; [|discriminate]. apply firstn_all2. rewrite app_length. cbn. lia. }
+        assert (HF1 : Forall (reader_ok (sp_status st1) (W ++ [b])) (sp_readers st1)).
+        { unfold st1; cbn [sp_status sp_readers]. eapply Forall_reader_mono; [|exact HF].
+          intros _. right. eexists. reflexivity. }
+        pose proof (rsteps_inv (W ++ [b]) during st1 Hv1 HF1) as H2. destruct (rsteps st1 during) as [st2 os].
+        destruct H2 as ((Hl & Hs & Hst & Hfl & Hal) & HF2 & Hd2).
+        cbn [sp_limit sp_state sp_status sp_file sp_alive st1] in Hl, Hs, Hst, Hfl, Hal, HF2.
+        cbn [ev_written ev_delivered].
+        split.
+        - split; [|split].
+          + eapply vis_ok_core; [|exact Hv1]. repeat split; assumption.
+          + unfold sender_ok. rewrite <- Hs, <- Hfl, <- Hst.
+            split; [rewrite app_length; cbn; lia|]. split; reflexivity.
+          + rewrite <- Hst. exact HF2.
+        - intro k. rewrite Hd2. f_equal.
+          rewrite (nread_readers st1 {| sp_limit := limit; sp_state := SSpilling (length W); sp_status := status_of (SSpilling (length W)); sp_file := Some W; sp_alive := true; sp_readers := readers |} k eq_refl).
+          apply firstn_app_short. eapply nread_le. exact HF. }
     + (* finished: Err *)
       set (st1 := {| sp_limit := limit; sp_state := SFinished ob n; sp_status := status; sp_file := file; sp_alive := true; sp_readers := readers |}) in *.
       pose proof (rsteps_inv W during st1 Hvis HF) as H2. destruct (rsteps st1 during) as [st2 os].
       destruct H2 as (Hc & HF2 & Hd2). cbn [ev_written ev_delivered]. rewrite !app_nil_r.
-      split; [|exact Hd2]. split; [eapply vis_ok_core; eassumption|].
+      split; [|intro k; rewrite ?app_nil_r; apply Hd2]. split; [eapply vis_ok_core; eassumption|].
       destruct Hc as (_ & Hs & Hst & _). split; [unfold sender_ok; rewrite <- Hs; exact I | rewrite <- Hst; exact HF2].
     + set (st1 := {| sp_limit := limit; sp_state := SErrored; sp_status := status; sp_file := file; sp_alive := true; sp_readers := readers |}) in *.
       pose proof (rsteps_inv W during st1 Hvis HF) as H2. destruct (rsteps st1 during) as [st2 os].
       destruct H2 as (Hc & HF2 & Hd2). cbn [ev_written ev_delivered]. rewrite !app_nil_r.
-      split; [|exact Hd2]. split; [eapply vis_ok_core; eassumption|].
+      split; [|intro k; rewrite ?app_nil_r; apply Hd2]. split; [eapply vis_ok_core; eassumption|].
       destruct Hc as (_ & Hs & Hst & _). split; [unfold sender_ok; rewrite <- Hs; exact I | rewrite <- Hst; exact HF2].
   - (* finish *)
     destruct (sp_alive st) eqn:Ea; cbn [negb].
     2:{ cbn [ev_written ev_delivered]. rewrite !app_nil_r. split; [repeat split; assumption | intro k; rewrite !app_nil_r; reflexivity]. }
     destruct st as [limit state status file alive readers]. cbn [sp_alive] in Ea. subst alive.
     unfold sender_ok in Hsnd. cbn [sp_state sp_file sp_status] in Hsnd. cbn [sp_readers sp_status] in HF.
-    unfold finish_begin. cbn [sp_state]. cbn [ev_written]. rewrite app_nil_r.
+    unfold finish_begin. cbn [sp_state].
     destruct state as [bs|n|ob n|].
     + destruct Hsnd as (-> & -> & ->).
       unfold set_state, publish; cbn [sp_limit sp_state sp_status sp_file sp_alive sp_readers].
@@ -385,41 +432,54 @@ Proof.
                      sp_file := None; sp_alive := true; sp_readers := readers |}).
       assert (Hv1 : vis_ok st1 W) by (right; reflexivity).
       assert (HF1 : Forall (reader_ok (sp_status st1) W) (sp_readers st1)).
-      { cbn [st1 sp_status sp_readers]. eapply Forall_reader_status; [|exact HF].
+      { unfold st1; cbn [sp_status sp_readers]. eapply Forall_reader_status; [|exact HF].
         intro Hx. exfalso. exact (not_sp_or_err_buffering _ Hx). }
       pose proof (rsteps_inv W during st1 Hv1 HF1) as H2. destruct (rsteps st1 during) as [st2 os].
-      destruct H2 as (Hc & HF2 & Hd2). cbn [ev_delivered].
-      split; [|exact Hd2]. split; [eapply vis_ok_core; eassumption|].
+      destruct H2 as (Hc & HF2 & Hd2). cbn [ev_written ev_delivered]. rewrite !app_nil_r.
+      split; [|intro k; rewrite ?app_nil_r; apply Hd2]. split; [eapply vis_ok_core; eassumption|].
       destruct Hc as (_ & Hs & Hst & _). split; [unfold sender_ok; rewrite <- Hs; exact I | rewrite <- Hst; exact HF2].
     + destruct Hsnd as (-> & -> & ->).
       unfold set_state; cbn [sp_limit sp_state sp_status sp_file sp_alive sp_readers].
-      set (st1 := {| sp_limit := limit; sp_state := SFinished None 0; sp_status := status_of (SSpilling (length W));
-                     sp_file := Some W; sp_alive := true; sp_readers := readers |}).
-      assert (Hv1 : vis_ok st1 W).
-      { right. cbn. split; [reflexivity|]. exists W. split; [reflexivity|]. split; [apply firstn_all | discriminate]. }
-      pose proof (rsteps_inv W during st1 Hv1 HF) as H2. destruct (rsteps st1 during) as [st2 os].
-      destruct H2 as ((Hl & Hs & Hst & Hfl & Hal) & HF2 & Hd2).
-      cbn [sp_limit sp_state sp_status sp_file sp_alive st1] in Hl, Hs, Hst, Hfl, Hal, HF2.
-      cbn [ev_delivered].
-      split; [|intro k; change (nread (publish (set_state st2 (SFinished None (length W)))) k) with (nread st2 k); apply Hd2].
-      split; [|split; [exact I|]].
-      * right. cbn [publish set_state sp_status sp_file sp_state]. rewrite <- Hfl. cbn [status_of ws_loc ws_finished].
-        split; [reflexivity|]. exists W. split; [reflexivity|]. split; [apply firstn_all | reflexivity].
-      * cbn [publish set_state sp_readers sp_status sp_state]. eapply Forall_reader_status; [|exact HF2].
-        intros _. right. eexists. reflexivity.
+      destruct awaited.
+      { set (st1 := {| sp_limit := limit; sp_state := SFinished None 0; sp_status := status_of (SSpilling (length W));
+                       sp_file := Some W; sp_alive := true; sp_readers := readers |}).
+        assert (Hv1 : vis_ok st1 W).
+        { right. cbn. split; [reflexivity|]. exists W. split; [reflexivity|]. split; [apply firstn_all | discriminate]. }
+        pose proof (rsteps_inv W during st1 Hv1 HF) as H2. destruct (rsteps st1 during) as [st2 os].
+        destruct H2 as ((Hl & Hs & Hst & Hfl & Hal) & HF2 & Hd2).
+        cbn [sp_limit sp_state sp_status sp_file sp_alive st1] in Hl, Hs, Hst, Hfl, Hal, HF2.
+        cbn [ev_written ev_delivered]. rewrite !app_nil_r.
+        split; [|intro k; rewrite ?app_nil_r; exact (Hd2 k)].
+        split; [|split; [exact I|]].
+        - right. cbn [publish sp_status sp_file sp_state]. rewrite <- Hfl. cbn [status_of ws_loc ws_finished].
+          split; [reflexivity|]. exists W. split; [reflexivity|]. split; [apply firstn_all | reflexivity].
+        - cbn [publish sp_readers sp_status sp_state]. eapply Forall_reader_status; [|exact HF2].
+          intros _. right. eexists. reflexivity. }
+      { unfold publish; cbn [sp_limit sp_state sp_status sp_file sp_alive sp_readers].
+        set (st1 := {| sp_limit := limit; sp_state := SFinished None (length W); sp_status := status_of (SFinished None (length W));
+                       sp_file := Some W; sp_alive := true; sp_readers := readers |}).
+        assert (Hv1 : vis_ok st1 W).
+        { right. cbn. split; [reflexivity|]. exists W. split; [reflexivity|]. split; [apply firstn_all | reflexivity]. }
+        assert (HF1 : Forall (reader_ok (sp_status st1) W) (sp_readers st1)).
+        { unfold st1; cbn [sp_status sp_readers]. eapply Forall_reader_status; [|exact HF].
+          intros _. right. eexists. reflexivity. }
+        pose proof (rsteps_inv W during st1 Hv1 HF1) as H2. destruct (rsteps st1 during) as [st2 os].
+        destruct H2 as (Hc & HF2 & Hd2). cbn [ev_written ev_delivered]. rewrite !app_nil_r.
+        split; [|intro k; rewrite ?app_nil_r; apply Hd2]. split; [eapply vis_ok_core; eassumption|].
+        destruct Hc as (_ & Hs & Hst & _). split; [unfold sender_ok; rewrite <- Hs; exact I | rewrite <- Hst; exact HF2]. }
     + unfold set_state; cbn [sp_limit sp_state sp_status sp_file sp_alive sp_readers].
       set (st1 := {| sp_limit := limit; sp_state := SFinished None 0; sp_status := status; sp_file := file; sp_alive := true; sp_readers := readers |}).
       assert (Hv1 : vis_ok st1 W) by exact Hvis.
       pose proof (rsteps_inv W during st1 Hv1 HF) as H2. destruct (rsteps st1 during) as [st2 os].
-      destruct H2 as (Hc & HF2 & Hd2). cbn [ev_delivered].
-      split; [|exact Hd2]. split; [eapply vis_ok_core; eassumption|].
+      destruct H2 as (Hc & HF2 & Hd2). cbn [ev_written ev_delivered]. rewrite !app_nil_r.
+      split; [|intro k; rewrite ?app_nil_r; apply Hd2]. split; [eapply vis_ok_core; eassumption|].
       destruct Hc as (_ & Hs & Hst & _). split; [unfold sender_ok; rewrite <- Hs; exact I | rewrite <- Hst; exact HF2].
     + unfold set_state; cbn [sp_limit sp_state sp_status sp_file sp_alive sp_readers].
       set (st1 := {| sp_limit := limit; sp_state := SFinished None 0; sp_status := status; sp_file := file; sp_alive := true; sp_readers := readers |}).
       assert (Hv1 : vis_ok st1 W) by exact Hvis.
       pose proof (rsteps_inv W during st1 Hv1 HF) as H2. destruct (rsteps st1 during) as [st2 os].
-      destruct H2 as (Hc & HF2 & Hd2). cbn [ev_delivered].
-      split; [|exact Hd2]. split; [eapply vis_ok_core; eassumption|].
+      destruct H2 as (Hc & HF2 & Hd2). cbn [ev_written ev_delivered]. rewrite !app_nil_r.
+      split; [|intro k; rewrite ?app_nil_r; apply Hd2]. split; [eapply vis_ok_core; eassumption|].
       destruct Hc as (_ & Hs & Hst & _). split; [unfold sender_ok; rewrite <- Hs; exact I | rewrite <- Hst; exact HF2].
   - (* send_error *)
     cbn [ev_written ev_delivered]. rewrite !app_nil_r.
@@ -433,7 +493,7 @@ Proof.
   - (* reader event *)
     pose proof (rstep_inv st W re Hvis HF) as H1. destruct (rstep st re) as [st1 o].
     destruct H1 as (Hc & HF1 & Hd1). cbn [ev_written ev_delivered]. rewrite app_nil_r.
-    split; [|exact Hd1]. split; [eapply vis_ok_core; eassumption|].
+    split; [|intro k; rewrite ?app_nil_r; apply Hd1]. split; [eapply vis_ok_core; eassumption|].
     destruct Hc as (_ & Hs & Hst & Hfl & _).
     split; [unfold sender_ok; rewrite <- Hs, <- Hst, <- Hfl; exact Hsnd | rewrite <- Hst; exact HF1].
 Qed.
@@ -512,59 +572,47 @@ Definition TInv (st : spill) (f s : bool) : Prop :=
   | _ => True
   end.
 
+Ltac tinv_during during :=
+  match goal with |- context [Model_Spill.rsteps ipc ?x during] =>
+    let Hc := fresh "Hc" in
+    pose proof (rsteps_core during x) as Hc; destruct (Model_Spill.rsteps ipc x during) as [st2 os];
+    cbn [fst] in Hc; destruct Hc as (_ & Hs & Hst & _);
+    unfold publish, set_state, set_file in *;
+    cbn [sp_state sp_status sp_limit sp_file sp_alive sp_readers] in *
+  end.
+
+Ltac tinv_close :=
+  cbn [is_finish_ok is_sent]; unfold TInv, publish, set_state;
+  cbn [sp_state sp_status sp_limit sp_file sp_alive sp_readers];
+  repeat match goal with H : _ = sp_state _ |- _ => rewrite <- H; clear H end;
+  repeat match goal with H : _ = sp_status _ |- _ => rewrite <- H; clear H end;
+  cbn [status_of ws_error ws_finished ws_loc orb]; rewrite ?orb_false_r, ?orb_true_r;
+  repeat split; try assumption; try reflexivity.
+
 Lemma step_tinv (st : spill) (e : event) (f s : bool) : TInv st f s ->
   let '(st', o) := step st e in TInv st' (f || is_finish_ok o) (s || is_sent o).
 Proof.
-  intros (He & Hf & Hst).
-  destruct e as [b total during|during| | |re]; cbn [Model_Spill.step].
+  intros (He & Hf & Hst0).
+  destruct e as [b total awaited during|awaited during| | |re]; cbn [Model_Spill.step].
   - destruct (sp_alive st); cbn [negb]; [|cbn [is_finish_ok is_sent]; rewrite !orb_false_r; repeat split; assumption].
     destruct st as [limit state status file alive readers]. cbn [sp_status sp_state] in *.
     unfold write_begin. cbn [sp_state sp_limit].
     destruct state as [bs|n|ob n|].
-    + destruct Hst as (-> & ->). destruct (limit <? total)%N.
-      * unfold set_state, set_file; cbn [sp_limit sp_state sp_status sp_file sp_alive sp_readers].
-        match goal with |- context [rsteps ?x during] => pose proof (rsteps_core during x) as Hc; destruct (rsteps x during) as [st2 os] end.
-        cbn [fst] in Hc. destruct Hc as (_ & Hs & _). cbn [sp_state] in Hs.
-        cbn [is_finish_ok is_sent orb]. unfold TInv, publish; cbn [sp_status sp_state]. rewrite <- Hs. cbn. repeat split.
-      * unfold set_state, publish; cbn [sp_limit sp_state sp_status sp_file sp_alive sp_readers].
-        match goal with |- context [rsteps ?x during] => pose proof (rsteps_core during x) as Hc; destruct (rsteps x during) as [st2 os] end.
-        cbn [fst] in Hc. destruct Hc as (_ & Hs & Hst2 & _). cbn [sp_state sp_status] in Hs, Hst2.
-        cbn [is_finish_ok is_sent orb]. unfold TInv. rewrite <- Hs, <- Hst2. cbn. repeat split.
-    + destruct Hst as (-> & ->).
-      unfold set_state, set_file; cbn [sp_limit sp_state sp_status sp_file sp_alive sp_readers].
-      match goal with |- context [rsteps ?x during] => pose proof (rsteps_core during x) as Hc; destruct (rsteps x during) as [st2 os] end.
-      cbn [fst] in Hc. destruct Hc as (_ & Hs & _). cbn [sp_state] in Hs.
-      cbn [is_finish_ok is_sent orb]. unfold TInv, publish; cbn [sp_status sp_state]. rewrite <- Hs. cbn. repeat split.
-    + match goal with |- context [rsteps ?x during] => pose proof (rsteps_core during x) as Hc; destruct (rsteps x during) as [st2 os] end.
-      cbn [fst] in Hc. destruct Hc as (_ & Hs & Hst2 & _). cbn [sp_state sp_status] in Hs, Hst2.
-      cbn [is_finish_ok is_sent]. rewrite !orb_false_r. unfold TInv. rewrite <- Hs, <- Hst2. repeat split; assumption.
-    + match goal with |- context [rsteps ?x during] => pose proof (rsteps_core during x) as Hc; destruct (rsteps x during) as [st2 os] end.
-      cbn [fst] in Hc. destruct Hc as (_ & Hs & Hst2 & _). cbn [sp_state sp_status] in Hs, Hst2.
-      cbn [is_finish_ok is_sent]. rewrite !orb_false_r. unfold TInv. rewrite <- Hs, <- Hst2. repeat split; assumption.
+    + destruct Hst0 as (-> & ->). destruct (limit <? total)%N; [destruct awaited|]; tinv_during during; tinv_close.
+    + destruct Hst0 as (-> & ->). destruct awaited; tinv_during during; tinv_close.
+    + tinv_during during; tinv_close.
+    + tinv_during during; tinv_close.
   - destruct (sp_alive st); cbn [negb]; [|cbn [is_finish_ok is_sent]; rewrite !orb_false_r; repeat split; assumption].
     destruct st as [limit state status file alive readers]. cbn [sp_status sp_state] in *.
     unfold finish_begin. cbn [sp_state].
     destruct state as [bs|n|ob n|].
-    + destruct Hst as (-> & ->).
-      unfold set_state, publish; cbn [sp_limit sp_state sp_status sp_file sp_alive sp_readers].
-      match goal with |- context [rsteps ?x during] => pose proof (rsteps_core during x) as Hc; destruct (rsteps x during) as [st2 os] end.
-      cbn [fst] in Hc. destruct Hc as (_ & Hs & Hst2 & _). cbn [sp_state sp_status] in Hs, Hst2.
-      cbn [is_finish_ok is_sent orb]. unfold TInv. rewrite <- Hs, <- Hst2. cbn. repeat split.
-    + destruct Hst as (-> & ->).
-      unfold set_state; cbn [sp_limit sp_state sp_status sp_file sp_alive sp_readers].
-      match goal with |- context [rsteps ?x during] => pose proof (rsteps_core during x) as Hc; destruct (rsteps x during) as [st2 os] end.
-      cbn [is_finish_ok is_sent orb]. unfold TInv, publish; cbn [sp_status sp_state]. cbn. repeat split.
-    + unfold set_state; cbn [sp_limit sp_state sp_status sp_file sp_alive sp_readers].
-      match goal with |- context [rsteps ?x during] => pose proof (rsteps_core during x) as Hc; destruct (rsteps x during) as [st2 os] end.
-      cbn [fst] in Hc. destruct Hc as (_ & Hs & Hst2 & _). cbn [sp_state sp_status] in Hs, Hst2.
-      cbn [is_finish_ok is_sent]. rewrite !orb_false_r. unfold TInv. rewrite <- Hs, <- Hst2. repeat split; assumption.
-    + unfold set_state; cbn [sp_limit sp_state sp_status sp_file sp_alive sp_readers].
-      match goal with |- context [rsteps ?x during] => pose proof (rsteps_core during x) as Hc; destruct (rsteps x during) as [st2 os] end.
-      cbn [fst] in Hc. destruct Hc as (_ & Hs & Hst2 & _). cbn [sp_state sp_status] in Hs, Hst2.
-      cbn [is_finish_ok is_sent]. rewrite !orb_false_r. unfold TInv. rewrite <- Hs, <- Hst2. repeat split; assumption.
-  - destruct (sp_alive st); cbn [negb is_finish_ok is_sent].
-    + rewrite orb_false_r, orb_true_r. unfold TInv, publish, set_state; cbn. rewrite orb_true_r. repeat split.
-    + rewrite !orb_false_r. repeat split; assumption.
+    + destruct Hst0 as (-> & ->). tinv_during during; tinv_close.
+    + destruct Hst0 as (-> & ->). destruct awaited; tinv_during during; tinv_close.
+    + tinv_during during; tinv_close.
+    + tinv_during during; tinv_close.
+  - destruct (sp_alive st); cbn [negb].
+    + tinv_close.
+    + cbn [is_finish_ok is_sent]. rewrite !orb_false_r. repeat split; assumption.
   - cbn [is_finish_ok is_sent]. rewrite !orb_false_r. repeat split; assumption.
   - pose proof (rstep_core st re) as Hc. destruct (rstep st re) as [st1 o]. cbn [fst] in Hc.
     destruct Hc as (_ & Hs & Hst2 & _). cbn [is_finish_ok is_sent]. rewrite !orb_false_r.
@@ -663,6 +711,27 @@ Proof.
     - reflexivity.
     - unfold r0; cbn [rd_read]. lia. }
   destruct (run st1 polls) as [st2 os2]. cbn [snd] in *. rewrite Hd. reflexivity.
+Qed.
+
+(* a live reader of a finished, error-free spill - whenever it was opened and whatever it has read so
+   far - yields exactly the remaining written batches and then the end; with what it received
+   before, that is the whole written sequence *)
+Theorem replay_drain (limit : N) (es : list event) :
+  let '(st, os) := run (init limit) es in
+  existsb is_finish_ok os = true -> existsb is_sent os = false ->
+  forall k r, nth_error (sp_readers st) k = Some r -> rd_done r = false ->
+    snd (run st (repeat (ERead (RPoll k)) (S (length (written es os) - rd_read r)))) =
+      map (fun b => ORead (OBatch b)) (skipn (rd_read r) (written es os)) ++ [ORead OEnd] /\
+    delivered k es os ++ skipn (rd_read r) (written es os) = written es os.
+Proof.
+  pose proof (run_inv es (init limit) [] (Inv_init limit)) as H.
+  pose proof (status_flags limit es) as Hfl.
+  pose proof (replay_prefix limit es) as Hpre.
+  destruct (run (init limit) es) as [st os]. destruct H as ((Hvis & _ & HF) & _). destruct Hfl as (He & Hf).
+  cbn [app] in Hvis, HF. intros Hfin Hns k r Hk Hd. rewrite Hns in He. rewrite Hfin in Hf. cbn [orb] in Hf.
+  split.
+  - apply (drain_reader _ st (written es os) k r); try assumption. reflexivity.
+  - destruct (Hpre k) as (Hp & _). rewrite Hp. unfold nread. rewrite Hk. apply firstn_skipn.
 Qed.
 
 End SpillProofs.
